@@ -336,3 +336,38 @@ func (vc *FnVC) scanGlobals(reach map[*ssa.Function]bool, pkgName string) []scan
 }
 
 func inModulePkg(path string) bool { return strings.HasPrefix(path, modulePath) }
+
+// checkNonNilGlobal: the package variable is stored to only by its package's initializer,
+// and what is stored there is syntactically non-nil (a constructor call from the allow-list,
+// an allocation, a conversion of a non-nil value to an interface, a function).
+func (p *Prog) checkNonNilGlobal(g *ssa.Global) string {
+	nonNilCall := map[string]bool{"errors.New": true, "fmt.Errorf": true, "regexp.MustCompile": true}
+	var okInit bool
+	for fn := range p.allFns {
+		for _, b := range fn.Blocks {
+			for _, ins := range b.Instrs {
+				st, ok := ins.(*ssa.Store)
+				if !ok || st.Addr != g {
+					continue
+				}
+				if fn.Synthetic != "package initializer" || fn.Pkg != g.Pkg {
+					return "assigned outside the package initializer: " + fn.String()
+				}
+				switch v := st.Val.(type) {
+				case *ssa.Call:
+					if callee := v.Call.StaticCallee(); callee == nil || !nonNilCall[callee.String()] {
+						return "initialised by a call not known to return non-nil"
+					}
+				case *ssa.MakeInterface, *ssa.Alloc, *ssa.MakeMap, *ssa.MakeClosure, *ssa.Function, *ssa.MakeSlice, *ssa.ChangeType:
+				default:
+					return fmt.Sprintf("initialised by %T", st.Val)
+				}
+				okInit = true
+			}
+		}
+	}
+	if !okInit {
+		return "never initialised"
+	}
+	return ""
+}
